@@ -509,6 +509,7 @@ def plan(ctx):
         cpu = 2.0
     fam("U-C", "sum-gens", stride=1 if ctx.thorough else 24, offset=ctx.seed)     # chains: values settle late along the numbering
     fam("U-P2", "sum-gens", stride=1 if ctx.thorough else 36, offset=ctx.seed)    # two-level choices
+    fam("U-G", "sum-gens", stride=6 if ctx.thorough else 48, offset=ctx.seed)    # corridors of 11-16 states
     fam("U-N", "sum")              # near chains: order of three almost-equal successors must not matter
     if ctx.thorough:
         fam("U-R", "sum-gens")     # reward ties through different float sums
